@@ -74,3 +74,18 @@ extern "C" void c14_execute()
   verif_assert(nx == nullptr, "C14: a lone statement has no successor");
   verif_assert(shared._level == lvl0 && shared._next == nullptr && shared._keyword == Statement::STMT_NOP, "C14: executing a statement writes nothing into the shared compiled program");
 }
+
+// c14_runtime: the runtime context in which a function body runs takes its function table from the context that makes the
+// call (the clone), not from the context that compiled the function (possibly the original the clone was made from).
+extern "C" void c14_runtime()
+{
+  static Context orig(1, 2);
+  Context* cl = orig.clone();
+  Context* shell = orig.createChildShell(orig);          /* private parsing context of a function declared in the original */
+  unsigned char depth = in_uchar(0); verif_assume(depth >= 1);
+  Context* rt = shell->createChildRuntime(*cl, depth);   /* the clone calls that function */
+  VX_WITNESS();
+  verif_assert(cl->_fctm != orig._fctm, "C14: a clone has its own function table");
+  verif_assert(rt->_fctm == cl->_fctm, "C14: a function body running for a clone resolves functions in the clone's table, not the original's");
+  verif_assert(rt->recursion() == depth, "C08: runtime context carries the requested depth");
+}
